@@ -15,16 +15,16 @@ Time is a natural number of seconds.
 namespace PB.Api
 open PB PB.Gen.Api
 
-abbrev Perm := Int
+-- `Permission` (Go `int8`) is modelled as `Int`.
 
 /-- `AuthToken` (Read, Write). `ValidUntil` only exists for API keys, see `KeyToken`. -/
 structure Token where
-  read : Perm
-  write : Perm
+  read : Int
+  write : Int
   deriving DecidableEq, Repr, Inhabited
 
 /-- Permission of a token for a method class. -/
-def Token.perm (t : Token) (readMethod : Bool) : Perm := if readMethod then t.read else t.write
+def Token.perm (t : Token) (readMethod : Bool) : Int := if readMethod then t.read else t.write
 
 /-- The default token: `&AuthToken{Read: PermitAnyone, Write: PermitAnyone}`. -/
 def anon : Token := ⟨permitAnyone, permitAnyone⟩
@@ -82,7 +82,7 @@ inductive OriginHdr
 /-- The matched handler: `perms = none` when it is not an `AuthenticatedHandler`;
     `moduleReady = false` when it is a `ModuleHandler` whose module is not ready. -/
 structure Handler where
-  perms : Option (Perm × Perm)
+  perms : Option (Int × Int)
   moduleReady : Bool
   deriving DecidableEq, Repr
 
@@ -130,7 +130,7 @@ def toLowerGo : Bytes → Bytes
   | [] => []
 
 /-- `parseAPIPermission`; `none` is the error case. -/
-def parseAPIPermission (s : Bytes) : Option Perm := permNames.lookup (toLowerGo s)
+def parseAPIPermission (s : Bytes) : Option Int := permNames.lookup (toLowerGo s)
 
 /-- `getEffectiveMethod`: `none` = not ok, `some true` = read method, `some false` = write method. -/
 def effectiveMethod (method acrm : Bytes) : Option Bool :=
@@ -275,14 +275,14 @@ def checkAuth (st : St) (r : Req) (authRequired : Bool) : CheckAuth :=
 
 /-- The permission the target handler declares for the method class
     (`PermitSelf` for handlers that are not an `AuthenticatedHandler`, including `nil`). -/
-def requiredPermission (h : Option Handler) (readMethod : Bool) : Perm :=
+def requiredPermission (h : Option Handler) (readMethod : Bool) : Int :=
   match h with
   | some ⟨some (r, w), _⟩ => if readMethod then r else w
   | _ => permitSelf
 
-def validPerm (p : Perm) : Prop := permitAnyone ≤ p ∧ p ≤ permitSelf
+def validPerm (p : Int) : Prop := permitAnyone ≤ p ∧ p ≤ permitSelf
 
-instance (p : Perm) : Decidable (validPerm p) := by unfold validPerm; exact inferInstance
+instance (p : Int) : Decidable (validPerm p) := by unfold validPerm; exact inferInstance
 
 structure AuthReq where
   st : St
@@ -291,30 +291,37 @@ structure AuthReq where
   newSession : Option Nat := none
   wwwAuth : Bool := false
 
+/-- The part of `authenticateRequest` after `checkAuth` returned a token (or nil): validity and
+    sufficiency of the request permission, 500 / 401 / 403, copy of the token. -/
+def judge (ca : CheckAuth) (t? : Option Token) (required : Int) (readMethod : Bool) : AuthReq :=
+  let token := t?.getD anon
+  let requestPermission := token.perm readMethod
+  if requestPermission < permitAnyone ∨ requestPermission > permitSelf then
+    { st := ca.st, out := .error 500, authCalled := ca.authCalled, newSession := ca.newSession }
+  else if requestPermission < required then
+    if token.read = permitAnyone ∧ token.write = permitAnyone then
+      { st := ca.st, out := .error 401, authCalled := ca.authCalled, newSession := ca.newSession, wwwAuth := true }
+    else
+      { st := ca.st, out := .error 403, authCalled := ca.authCalled, newSession := ca.newSession }
+  else
+    { st := ca.st, out := .ok ⟨token.read, token.write⟩, authCalled := ca.authCalled, newSession := ca.newSession }
+
+/-- The part of `authenticateRequest` after the special permissions have been handled
+    (`required` is the declared permission, with `Dynamic` replaced by `PermitAnyone`). -/
+def authorize (st : St) (r : Req) (required : Int) (readMethod : Bool) : AuthReq :=
+  if required < permitAnyone ∨ required > permitSelf then { st, out := .error 500 }
+  else
+    let ca := checkAuth st r (decide (required > permitAnyone))
+    match ca.out with
+    | .handled code => { st := ca.st, out := .error code, authCalled := ca.authCalled, newSession := ca.newSession }
+    | .token t? => judge ca t? required readMethod
+
 def authenticateRequest (st : St) (r : Req) (h : Option Handler) (readMethod : Bool) : AuthReq :=
   let required := requiredPermission h readMethod
   if required = notFound then { st, out := .error 404 }
   else if required = notSupported then { st, out := .error 405 }
   else if required = permitAnyone then { st, out := .ok anon }
-  else
-    let required := if required = dynamic then permitAnyone else required
-    if required < permitAnyone ∨ required > permitSelf then { st, out := .error 500 }
-    else
-      let ca := checkAuth st r (decide (required > permitAnyone))
-      match ca.out with
-      | .handled code => { st := ca.st, out := .error code, authCalled := ca.authCalled, newSession := ca.newSession }
-      | .token t? =>
-        let token := t?.getD anon
-        let requestPermission := token.perm readMethod
-        if requestPermission < permitAnyone ∨ requestPermission > permitSelf then
-          { st := ca.st, out := .error 500, authCalled := ca.authCalled, newSession := ca.newSession }
-        else if requestPermission < required then
-          if token.read = permitAnyone ∧ token.write = permitAnyone then
-            { st := ca.st, out := .error 401, authCalled := ca.authCalled, newSession := ca.newSession, wwwAuth := true }
-          else
-            { st := ca.st, out := .error 403, authCalled := ca.authCalled, newSession := ca.newSession }
-        else
-          { st := ca.st, out := .ok ⟨token.read, token.write⟩, authCalled := ca.authCalled, newSession := ca.newSession }
+  else authorize st r (if required = dynamic then permitAnyone else required) readMethod
 
 /-! ### mainHandler.handle -/
 
@@ -336,17 +343,40 @@ def originAllowed (dev : Bool) (host : Bytes) (o : Origin) : Bool :=
   o.host == host || o.hostname == host || extensionSchemes.contains o.scheme
     || (dev && devOrigins.contains o.hostname)
 
+/-- The origin check at the top of `handle`: a present Origin header that does not parse, or that
+    matches neither the Host nor an exception, is refused. -/
+def originRefused (st : St) (r : Req) : Bool :=
+  match r.origin with
+  | .absent => false
+  | .unparsable => true
+  | .parsed o => !originAllowed st.dev r.host o
+
+/-- `isPreflighCheck`. -/
+def isPreflight (r : Req) : Bool := r.origin != .absent && r.method == methodOptions && r.acrm != []
+
+/-- `handle` from the preflight short-cut on (route matched, method class known). -/
+def serve (st : St) (r : Req) (h : Option Handler) (readMethod : Bool) : St × Resp :=
+  let cors : Bool := r.origin != .absent
+  if isPreflight r && h.isSome then (st, { out := .status 200, cors })
+  else
+    let a := authenticateRequest st r h readMethod
+    match a.out with
+    | .error code =>
+      (a.st, { out := .status code, authCalled := a.authCalled, newSession := a.newSession, cors, wwwAuth := a.wwwAuth })
+    | .ok token =>
+      match h with
+      | none => (a.st, { out := .status 404, authCalled := a.authCalled, newSession := a.newSession, cors })
+      | some hd =>
+        if !hd.moduleReady then
+          (a.st, { out := .status 503, authCalled := a.authCalled, newSession := a.newSession, cors })
+        else
+          (a.st, { out := .invoke token, authCalled := a.authCalled, newSession := a.newSession, cors })
+
 def handle (st : St) (r : Req) : St × Resp :=
   -- Check Cross-Origin Requests.
-  let originRefused : Bool :=
-    match r.origin with
-    | .absent => false
-    | .unparsable => true
-    | .parsed o => !originAllowed st.dev r.host o
-  if originRefused then (st, { out := .status 403 })
+  if originRefused st r then (st, { out := .status 403 })
   else
     let cors : Bool := r.origin != .absent
-    let isPreflight : Bool := cors && r.method == methodOptions && r.acrm != []
     -- Clean URL.
     if r.pathDirty then (st, { out := .status 301, cors })
     else
@@ -356,21 +386,7 @@ def handle (st : St) (r : Req) : St × Resp :=
       | .matched h =>
         match effectiveMethod r.method r.acrm with
         | none => (st, { out := .status 405, cors })
-        | some readMethod =>
-          if isPreflight && h.isSome then (st, { out := .status 200, cors })
-          else
-            let a := authenticateRequest st r h readMethod
-            match a.out with
-            | .error code =>
-              (a.st, { out := .status code, authCalled := a.authCalled, newSession := a.newSession, cors, wwwAuth := a.wwwAuth })
-            | .ok token =>
-              match h with
-              | none => (a.st, { out := .status 404, authCalled := a.authCalled, newSession := a.newSession, cors })
-              | some hd =>
-                if !hd.moduleReady then
-                  (a.st, { out := .status 503, authCalled := a.authCalled, newSession := a.newSession, cors })
-                else
-                  (a.st, { out := .invoke token, authCalled := a.authCalled, newSession := a.newSession, cors })
+        | some readMethod => serve st r h readMethod
 
 /-! ### Histories -/
 
